@@ -237,13 +237,20 @@ class WholeSystem(Part):
                 'through {rc file, option strings without rc file, option strings over an rc file with other values, '
                 'option strings over an rc file lacking the sections}; save_config -> new System round trip; dict '
                 'channel; Config.update with legal and illegal values for every field with declared alternatives; histories '
-                '[save | print]? -> (Config.update | attribute assignment)(all fields) -> save_config -> new System')
+                '[save | print]? -> (Config.update | attribute assignment)(all fields) -> save_config -> new System; two Systems in '
+                'one process over one unchanged rc file ({file, options, dict} then {file, options}): the second is judged')
 
     def cases(self, tier):
         out = [dict(mode=m, salt=s) for m in ('file', 'options_norc', 'options_over_file', 'options_over_partial',
                                               'roundtrip', 'dict', 'update', 'update_roundtrip',
                                               'save_update_roundtrip', 'print_update_roundtrip', 'attr_roundtrip',
                                               'save_attr_roundtrip', 'print_attr_roundtrip') for s in (0, 1, 2)]
+        # histories of two Systems in one process that share one unchanged rc file: what the first was given through the
+        # other channels must not be in effect in the second
+        for first in ('file', 'options', 'dict'):
+            for second in ('file', 'options'):
+                for s in (0, 1):
+                    out.append(dict(mode=f'then:{first}:{second}', salt=s))
         return out
 
     def init_worker(self):
@@ -323,6 +330,18 @@ class WholeSystem(Part):
                 rc2 = rc + '.saved'
                 s1.save_config(rc2, overwrite=True)
                 ss = self.build(config_path=rc2)
+            elif mode.startswith('then:'):
+                _, first, second = mode.split(':')
+                third = {(s, f): alt_value(v, alt, salt + 2) for s, f, v, alt in fields}
+                write(want if second == 'file' else other)
+                if first == 'file':
+                    s_a = self.build(config_path=rc)
+                elif first == 'options':
+                    s_a = self.build(config_path=rc, config_option=[f'{s}.{f}={v}' for (s, f), v in third.items()])
+                else:
+                    s_a = self.build(config_path=rc, config={f: v for (s, f), v in third.items() if s == 'System'})
+                del s_a
+                ss = self.build(config_path=rc) if second == 'file' else self.build(config_path=rc, config_option=opts)
             elif mode == 'dict':
                 sysvals = {f: v for (s, f), v in want.items() if s == 'System'}
                 ss = self.build(default_config=True, config=sysvals)
